@@ -28,6 +28,8 @@ type Wire struct {
 	// LastRequest holds the bytes of the most recent request as sent.
 	// Targets: scheme://host of every request the client sent (redirects must stay with the endpoint)
 	Targets []string
+	// Auths: the Authorization header of every request (credentials given in the endpoint URL must be sent)
+	Auths []string
 	// ShortBodies counts answers whose handler announced more bytes than it wrote
 	ShortBodies int
 	LastRequest []byte
@@ -73,6 +75,7 @@ func (w *Wire) RoundTrip(req *http.Request) (*http.Response, error) {
 	w.LastRequest = append([]byte(nil), buf.Bytes()...)
 	w.Requests++
 	w.Targets = append(w.Targets, req.URL.Scheme+"://"+req.URL.Host)
+	w.Auths = append(w.Auths, req.Header.Get("Authorization"))
 	w.mu.Unlock()
 	sreq, err := http.ReadRequest(bufio.NewReader(&buf))
 	if err != nil {
